@@ -182,7 +182,7 @@ def _msg_for(typ):
 def run_one(params: dict, chooser, deviations=True) -> dict:
     ERRORS.records.clear()
     kind = params['kind']
-    horizon = {'out': 90.0, 'in': 140.0, 'server': 700.0}[kind]
+    horizon = {'out': 90.0, 'in': 140.0, 'server': 700.0, 'netdisc': 90.0}[kind]
     world = World(chooser=chooser, horizon=horizon, deviations=False)
     try:
         net = SimNet(world, losable=False)
@@ -218,14 +218,22 @@ def run_one(params: dict, chooser, deviations=True) -> dict:
             """queues the ending after the connection is established"""
             if ending in (None, 'none', 'rtimeout'):
                 return
-            if ending in ('disc1', 'disc2'):
+            if ending in ('disc1', 'disc2', 'disc-cancel'):
                 async def disc(reason=CloseReason.REQUESTED):
                     c = the_conn()
                     if c is not None:
                         await c.disconnect(reason)
-                world.op(after_thread, 'disconnect', disc)
+                dslot = world.op(after_thread, 'disconnect', disc)
                 if ending == 'disc2':
                     world.op('v', 'disconnect2', lambda: disc(CloseReason.UNKNOWN))
+                if ending == 'disc-cancel':
+                    # the task running disconnect() is itself cancelled while it waits for the close
+                    async def cancel_disc():
+                        t = dslot.get('task')
+                        if t is not None and not t.done():
+                            world.log('cancel-disconnect')
+                            t.cancel()
+                    world.op('v', 'cancel-disconnect', cancel_disc, guard=lambda: 'task' in dslot)
             elif ending in ('eof', 'reset', 'two-then-eof'):
                 def inject():
                     pc = holder.get('peer_conn')
@@ -379,6 +387,27 @@ def run_one(params: dict, chooser, deviations=True) -> dict:
                     schedule_reader('r')
                 schedule_ending('u')
                 schedule_probe('u')
+        elif kind == 'netdisc':
+            # Network.disconnect() while peer connections are open / being opened on a ConnectToPeer request
+            from aioslsk.protocol.messages import ConnectToPeer
+            outcome = params['connect']
+            peer = ScriptedPeer(net, 'bob', PEER_IP, port=5000 if outcome == 'ok' else 0)
+            if outcome == 'hang':
+                net.routes[(PEER_IP, 5000)] = 'hang'
+            elif outcome == 'refuse':
+                net.routes[(PEER_IP, 5000)] = 'refuse'
+            if params.get('established'):
+                other = ScriptedPeer(net, 'carol', '10.0.3.8', listen=False)
+                other.connect_init(60000, 'P')
+                world.run_default_until_idle()
+
+            def relay():
+                server.send(ConnectToPeer.Response('bob', typ, PEER_IP, 5000, 777, False, 0, 0))
+            world.post(EnvEvent('inject', 'connect-to-peer', relay, chan=None))
+
+            async def netdisc():
+                await network.disconnect()
+            world.op('u', 'network.disconnect', netdisc)
         else:   # server
             outcome = params['connect']
             if outcome == 'hang':
@@ -452,9 +481,9 @@ def run_one(params: dict, chooser, deviations=True) -> dict:
 
 def scenarios(tier: str):
     out = []
-    endings_pd = ['disc1', 'disc2', 'eof', 'reset', 'rtimeout', 'wfail_send', 'wfail_queue', 'wstall',
+    endings_pd = ['disc1', 'disc2', 'disc-cancel', 'eof', 'reset', 'rtimeout', 'wfail_send', 'wfail_queue', 'wstall',
                   'two-then-eof', 'two-then-disc']
-    endings_f = ['disc1', 'disc2', 'eof', 'reset', 'wfail_send', 'wfail_queue', 'wstall']
+    endings_f = ['disc1', 'disc2', 'disc-cancel', 'eof', 'reset', 'wfail_send', 'wfail_queue', 'wstall']
     for obf in (False, True):
         for typ in ('P', 'D', 'F'):
             for ending in (endings_f if typ == 'F' else endings_pd):
@@ -464,11 +493,15 @@ def scenarios(tier: str):
                 out.append({'kind': 'out', 'typ': typ, 'obf': obf, 'connect': outcome, 'ending': 'none'})
                 out.append({'kind': 'out', 'typ': typ, 'obf': obf, 'connect': outcome, 'ending': 'none', 'cancel': True})
         for first in ('P', 'D', 'F'):
-            for ending in (['disc1', 'disc2', 'eof', 'reset', 'wfail_send', 'wstall'] +
+            for ending in (['disc1', 'disc2', 'disc-cancel', 'eof', 'reset', 'wfail_send', 'wstall'] +
                            (['rtimeout', 'two-then-eof', 'two-then-disc'] if first != 'F' else [])):
                 out.append({'kind': 'in', 'first': first, 'obf': obf, 'ending': ending})
         for first in ('pierce-unknown', 'undecodable', 'non-init', 'eof', 'reset', 'partial-eof', 'silence'):
             out.append({'kind': 'in', 'first': first, 'obf': obf})
+    for outcome in ('ok', 'refuse', 'hang'):
+        for typ in ('P', 'F'):
+            for est in (False, True):
+                out.append({'kind': 'netdisc', 'connect': outcome, 'typ': typ, 'established': est})
     for outcome in ('ok', 'refuse', 'hang'):
         endings = ['disc1', 'eof', 'reset', 'rtimeout', 'wstall'] if outcome == 'ok' else ['none']
         for ending in endings:
